@@ -288,6 +288,21 @@ def _run(case, res):
                     sl = slice(vals[a % 8], vals[c % 8], [None, 1, 2, -1][b % 4])
                     desc = f"f[{sl}]"
                     got, want = outcome(lambda: obj[sl]), outcome(lambda: model[sl])
+                elif op == "reopen_next" and c % 3 == 1:
+                    # a shallow copy of the opened object (it shares the handle and the pending edits), the original is dropped and
+                    # collected; the history goes on through the copy
+                    import copy
+                    import gc
+                    if n == 0:
+                        continue
+                    o2 = copy.copy(obj)
+                    obj = o2
+                    o2 = None
+                    gc.collect()
+                    res.count("shallow_copies_with_the_original_dropped")
+                    i = a % n
+                    desc = f"f[{i}] through a copy.copy of the opened object (the original dropped and collected)"
+                    got, want = outcome(lambda: obj[i]), ("ok", model[i])
                 elif op == "reopen_next":
                     # the same object is closed and opened again (a second `with` session); the first read afterwards is the
                     # line that follows the last one read before closing
